@@ -4,5 +4,5 @@ for id in "$@"; do
   d=/tmp/benign/$id; rm -rf $d; git -C /repo worktree prune; mkdir -p $d/out
   git -C /repo worktree add --detach $d/wt HEAD -q
   tools/prep_seed.sh --text-only $id > $d/PROPERTY.txt
-  sed "s/__ID__/$id/g" /verif/tools/benign_prompt.txt > $d/TASK.txt
+  sed "s/__ID__/$id/g" /verif/tools/${BENIGN_PROMPT:-benign_prompt_r2.txt} > $d/TASK.txt
 done
